@@ -59,3 +59,5 @@ Definition obs_eqb (a b:obs) : bool := beqb (fst a) (fst b) && fl_eqb (snd a) (s
 Fixpoint mismatches_from (i:nat) (l:list (obs * obs)) : list nat :=
   match l with [] => [] | (g,e)::r => if obs_eqb g e then mismatches_from (S i) r else i :: mismatches_from (S i) r end.
 Definition mismatches := mismatches_from 0.
+
+Definition str_of_bytes (b:bytes) : string := string_of_list_ascii (map (fun x => ascii_of_N (bN x)) b).
